@@ -111,12 +111,22 @@ KIND_LINK = {
 
 
 def variant_flags(repo, variant):
+    # <kind>-c<X>d<Y>[e<0|1>][n<0|1>][p<0|1|2>] : contact model, dynamic model, faces store contact energies, normals written to the mesh files, polarization mode
+    import re
     kind, cd = variant.split('-')
-    c = int(cd[1])
-    d = int(cd[3])
+    m = re.fullmatch(r'c(\d)d(\d)(?:e(\d))?(?:n(\d))?(?:p(\d))?', cd)
+    if not m:
+        raise BuildError('bad variant name: ' + variant)
+    c, d = int(m.group(1)), int(m.group(2))
     fl = ['-std=c++17', '-DNDEBUG', '-fopenmp', '-w', '-DSIMUCELL3D_VERIF',
           '-DVERIF_CONTACT_MODEL_INDEX=%d' % c, '-DVERIF_DYNAMIC_MODEL_INDEX=%d' % d,
           '-DPROJECT_SOURCE_DIR="%s"' % repo]
+    if m.group(3) is not None:
+        fl.append('-DVERIF_FACE_STORE_CONTACT_ENERGY=%s' % ('true' if m.group(3) == '1' else 'false'))
+    if m.group(4) is not None:
+        fl.append('-DVERIF_WRITE_NORMALS_IN_OUTPUT_MESH_FILE=%s' % ('true' if m.group(4) == '1' else 'false'))
+    if m.group(5) is not None:
+        fl.append('-DVERIF_POLARIZATION_MODE_INDEX=%d' % int(m.group(5)))
     return fl + KIND_FLAGS[kind], kind
 
 
